@@ -83,6 +83,13 @@ type BlockPipeline struct {
 	wg              sync.WaitGroup
 	mu              sync.Mutex   // protects Start/Stop
 	submitMu        sync.RWMutex // protects Submit against concurrent Stop
+
+	// seqToken serialises sequence number allocation with the send on
+	// submitChan, so that a submission which fails (for example because the
+	// caller's context expired under backpressure) never consumes a sequence
+	// number. A consumed-but-never-sent number would be a permanent gap that
+	// the apply stage waits on forever.
+	seqToken chan struct{}
 }
 
 // NewBlockPipeline creates a new BlockPipeline using functional options.
@@ -130,6 +137,7 @@ func (p *BlockPipeline) Start(ctx context.Context) error {
 	// Create channels
 	bufSize := p.config.PrefetchBufferSize
 	p.submitChan = make(chan *BlockItem, bufSize)
+	p.seqToken = make(chan struct{}, 1)
 	p.decodedChan = make(chan *BlockItem, bufSize)
 	p.resultsChan = make(chan *BlockItem, bufSize)
 	p.errorsChan = make(chan error, bufSize)
@@ -226,19 +234,28 @@ func (p *BlockPipeline) Submit(ctx context.Context, blockType uint, rawCbor []by
 	}
 
 	verifPoint("sub.begin", "", 0, rawCbor, 0)
-	// Allocate sequence number only once, then send.
-	// We use a single blocking select to avoid sequence gaps that would occur
-	// if we allocated in a non-blocking attempt that failed.
-	item := NewBlockItem(blockType, rawCbor, tip, p.sequenceCounter.Add(1)-1)
+	// Take the submit token, then pick the next sequence number. The number is
+	// only consumed (the counter advanced) once the item has actually been
+	// sent, so a failed submission leaves no gap in the sequence.
+	select {
+	case p.seqToken <- struct{}{}:
+	case <-ctx.Done():
+		return ctx.Err()
+	case <-p.ctx.Done():
+		return ErrPipelineStopped
+	}
+	defer func() { <-p.seqToken }()
+	item := NewBlockItem(blockType, rawCbor, tip, p.sequenceCounter.Load())
 	verifPoint("sub.send", "", item.SequenceNumber(), rawCbor, 0)
 
 	select {
 	case p.submitChan <- item:
+		p.sequenceCounter.Add(1)
 		p.metrics.RecordSubmit()
 		return nil
 	case <-ctx.Done():
-		// Context cancelled while waiting - sequence gap is acceptable
-		// because this typically means shutdown.
+		// Context cancelled while waiting. The sequence number was not
+		// consumed, so later submissions are not blocked behind a gap.
 		return ctx.Err()
 	case <-p.ctx.Done():
 		return ErrPipelineStopped
